@@ -3066,6 +3066,11 @@ impl Connection {
                             // was retired all at once via retire_prior_to.
                             let pending_retired =
                                 &mut self.spaces[SpaceId::Data].pending.retire_cids;
+                            // A retransmitted frame asks for nothing new while the retirement it
+                            // caused is still waiting to be sent
+                            if pending_retired.contains(&frame.sequence) {
+                                continue;
+                            }
                             // A peer repeating frames for retired IDs must not be able to grow the
                             // queue without bound either
                             if pending_retired.len() as u64 >= MAX_PENDING_RETIRED_CIDS {
